@@ -71,7 +71,8 @@ class KrausChannel(raw_types.Gate):
             return NotImplemented
         if self._key != other._key:
             return False
-        return np.allclose(np.asarray(self._kraus_ops), np.asarray(other._kraus_ops))
+        mine, theirs = np.asarray(self._kraus_ops), np.asarray(other._kraus_ops)
+        return mine.shape == theirs.shape and np.allclose(mine, theirs)
 
     def num_qubits(self) -> int:
         return self._num_qubits
